@@ -70,14 +70,14 @@ func specT5ElementsAt(enc string, at int, xs [][]byte) bool {
 //@ ensures ok == (hdr && l <= uint64(len(data)-3-k) && l%specNe == 0)
 //@ ensures ok ==> r.TokenKeyID == data[2] && len(r.BlindedReq) == int(l)/specNe && fresh(r.BlindedReq)
 //@ ensures ok ==> specT5ElementsAt(string(data), 3+k, r.BlindedReq)
-//@ ensures ok ==> r.raw == nil
+//@ ensures[C01 C04 C16] ok ==> r.raw == nil
 //@ ensures string(data) == old(string(data))
 //@ assigns r.TokenKeyID, r.BlindedReq, r.raw
 //@ alloc 16*len(data) + 64
 //@ loop 0 vars(i int, elementCount int, blindedRequests []byte)
 //@   invariant 0 <= i && i <= elementCount && len(r.BlindedReq) == elementCount && fresh(r.BlindedReq) && len(blindedRequests) == specNe*elementCount
 //@   invariant forall(0, i, func(j int) bool { return len(r.BlindedReq[j]) == specNe && Chunk(string(blindedRequests), 0, specNe, j) == string(r.BlindedReq[j]) })
-//@   invariant r.TokenKeyID == data[2] && r.raw == nil
+//@   invariant[C01 C04 C16] r.TokenKeyID == data[2] && r.raw == nil
 //@ end
 
 // Decoding the encoding of a well-formed request (any number of 32-byte elements) returns it.
